@@ -216,6 +216,8 @@ class BloomDriver:
                         ctx.check(self._o("member"), r is True, lambda: f"second live filter (est {self.est + 7}) fed the SAME hash list after "
                                                                         f"add_alt({k!r}) on the first: check({k!r}) -> {r!r}")
                         self.events.add("shared_hash_list_second_filter")
+                if hs is not getattr(self, "scratch", None):
+                    hs[:] = [0] * len(hs)  # the list hashes() returned is the caller's to reuse: the filter must not be holding on to it
             else:
                 ctx.call(anyo, o.add, k)
             if alt:
